@@ -169,7 +169,8 @@ def main():
                 violations.append((ob, f, r))
         per_unit.append(dict(unit=uname, engine="verus", backend="z3", status=r["status"], obligations=n_obl,
                              solver_s=round(r["solver_s"], 3), wall_s=round(r.get("wall_s", 0), 2),
-                             canary=r["canary"], bounded=None))
+                             canary=r["canary"], bounded=None,
+                             **({"borrow_probes": r["borrow_probes"]} if r.get("borrow_probes") else {})))
     # ---- Engine K -----------------------------------------------------------------------------
     kani_results, kani_note = krun.run(pid, a.tier) if kani_files else ([], None)
     bounded_checks = []
